@@ -254,6 +254,9 @@ func reduceNumbers(p *plan.Plan, holds func(*plan.Plan) bool) *plan.Plan {
 // from scripts and modules; candidates that no longer compile fall out because
 // they do not reproduce the class.
 func reduceSources(p *plan.Plan, holds func(*plan.Plan) bool) *plan.Plan {
+	if len(p.Meta) > 0 {
+		return p // the oracle's expectation is tied to the generated text (marker tables, DSL statements)
+	}
 	get := func(q *plan.Plan, k int) *string {
 		if k < len(q.Scripts) {
 			return &q.Scripts[k].Src
